@@ -7,7 +7,7 @@
     [cfg_orig] is the importer as found, [cfg_fixed] the importer with every repair proposed in
     work/c06/fix-*.patch (and C07's Pico repair); [cfg_without_*] has one repair missing. *)
 From Coq Require Import ZArith List String Bool.
-From L21 Require Import Base.Hex Raw.RawData Raw.RawGds Raw.RawFlatten Raw.RawGdsCheck Raw.RawGds_proofs Raw.RawFlatten_proofs.
+From L21 Require Import Base.Hex Raw.RawData Raw.RawGds Raw.RawFlatten Raw.RawGdsCheck Raw.RawGds_proofs Raw.RawFlatten_proofs Raw.RawGdsSafe_proofs.
 From L21 Require Gds.GdsData Raw.RawGdsSpec Geom.Transform Geom.TransformSpec.
 Import ListNotations.
 Local Open Scope Z_scope.
@@ -61,11 +61,31 @@ Theorem C06_import_flatten_gen :
 Proof. exact import_flatten_gen. Qed.
 
 (** (2) Malformed libraries: the repaired importer NEVER returns a library for them (so no
-    placement of a malformed library is ever silently dropped or misplaced).  Together with (4)
-    below the outcome is an error. *)
+    placement of a malformed library is ever silently dropped or misplaced) ... *)
 Theorem C06_malformed_never_ok :
   forall g L, import_lib cfg_fixed [] g = IOk L -> ~ S.malformed g.
 Proof. exact (fun g L => import_ok_not_malformed cfg_fixed [] g L cfg_fixed_ok (Forall_nil _)). Qed.
+
+(** ... and it never panics: for every library of gds21's types ([G.lib_ok]: `i32` coordinates and widths,
+    `i16` layers and counts, three-point and five-point XY arrays) -- all libraries, hierarchies, labels,
+    paths of any direction -- the outcome is not a panic.  (`Polygon::contains` as repaired for C13,
+    `Path::contains` with work/c06/fix-8: every intermediate of the label tests stays inside i128 / u128.) *)
+Theorem C06_no_panic :
+  forall g, G.lib_ok g -> import_lib cfg_fixed [] g <> IPanic.
+Proof. exact no_panic_fixed. Qed.
+
+(** Hence the error cases: a malformed library is rejected with an error. *)
+Theorem C06_error_cases :
+  forall g, G.lib_ok g -> S.malformed g -> exists e, import_lib cfg_fixed [] g = IErr e.
+Proof. exact error_cases_fixed. Qed.
+
+(** The property's disjunction: an error, or a library (to which (1) applies) of a library that is
+    not malformed. *)
+Theorem C06_error_or_library :
+  forall g, G.lib_ok g ->
+  (exists e, import_lib cfg_fixed [] g = IErr e) \/
+  (exists L, import_lib cfg_fixed [] g = IOk L /\ ~ S.malformed g).
+Proof. exact outcome_fixed. Qed.
 
 (** (3) Single elements.  A BOUNDARY is imported as the polygon of its vertices, or -- for both
     windings and all four start corners of an axis-parallel rectangle -- as the rectangle with the
@@ -119,6 +139,30 @@ Theorem C06_aref_lattice :
      Forall (fun i => i_cell i = cell) insts /\
      forall pls, S.aref_placements a = S.SOk pls -> Forall2 inst_rel insts pls.
 Proof. exact import_array_rel. Qed.
+
+(** (6) Labels, the part that is proved: the test the importer applies to a label and a shape
+    (`Shape::contains`: `Rect::contains`, `Polygon::contains` as repaired for C13) agrees with the
+    specification's "inside": where the specification says inside (on the boundary included) the test is
+    true, where it says outside it is false; for a rectangle imported from a 4-vertex boundary the
+    answer is that of the boundary's own polygon (both windings, all start corners).  Paths are not
+    covered by this lemma.  The full statement -- the nets and annotations of every imported cell follow
+    the labels ([S.nets_okb], [S.annots_okb]) -- is [C06_nets_full]; it is checked on every case of the
+    correspondence run and not proved (missing: the two-pass loop of `import_layout` against the relation,
+    and the path case of the test). *)
+Theorem C06_label_test_sound_partial :
+  forall c sh gm q b, fx_contains c = true -> shape_rel sh gm -> (forall pts w, sh <> Path pts w) ->
+  shape_contains c sh q = IOk b -> tri_agrees (S.label_in gm (S.rpt q)) b.
+Proof. exact label_test_sound_partial. Qed.
+
+Definition C06_nets_full : Prop :=
+  forall g L, import_lib cfg_fixed [] g = IOk L -> S.right_angle g -> S.labels_ascii g = true ->
+  forall s, In s (G.l_structs g) ->
+  exists k cell l shapes,
+    nth_error (lib_cells L) k = Some cell /\ c_name cell = str_of_bytes (G.s_name s) /\ c_layout cell = Some l /\
+    S.own_shapes s = S.SOk shapes /\
+    S.omap_all (S.norm_raw_elem (lib_layers L)) (lay_elems l) = Some (map S.norm_fshape shapes) /\
+    S.nets_okb (S.own_texts s) shapes (map e_net (lay_elems l)) = true /\
+    S.annots_okb shapes (S.own_texts s) (map annot_pair (lay_annots l)) = true.
 
 (** (5) `Layout::flatten` one level at a time: whenever the recursion [rflat] on the library itself
     (a cell's own elements, then instance by instance the flattening of the instantiated cell
@@ -318,6 +362,9 @@ Qed.
 Print Assumptions C06_import_flatten.
 Print Assumptions C06_import_flatten_gen.
 Print Assumptions C06_malformed_never_ok.
+Print Assumptions C06_no_panic.
+Print Assumptions C06_error_cases.
+Print Assumptions C06_error_or_library.
 Print Assumptions C06_boundary.
 Print Assumptions C06_box.
 Print Assumptions C06_path.
@@ -325,6 +372,7 @@ Print Assumptions C06_rectangles_stay_rectangles.
 Print Assumptions C06_sref_placement.
 Print Assumptions C06_aref_lattice.
 Print Assumptions C06_flatten_one_level.
+Print Assumptions C06_label_test_sound_partial.
 Print Assumptions C06_zero_dims_orig_refuted.
 Print Assumptions C06_zero_dims_repaired.
 Print Assumptions C06_capacity_orig_refuted.
